@@ -39,6 +39,7 @@ From Coq Require Import List ZArith Bool Arith.
 Import ListNotations.
 From TI Require Import lib.Sched model.Caches proofs.CachesProofs proofs.MemoProofs proofs.SwapProofs.
 From TI Require Import model.CachesInval proofs.InvalProofs.
+From TI Require Import model.CachesEnv proofs.EnvKeyProofs model.CachesHand proofs.HandProofs.
 
 (** the cell size returned after any history is the fresh one for the current terminal
     size and swap setting, under the query status in force when the entry was made *)
@@ -476,3 +477,95 @@ Theorem C15_enable_queries_refuted_unlocked :
     /\ exists en, q_cache s 0 = Some en /\ e_cond en = false /\ (e_born en < q_invals s)%nat.
 Proof. exact enable_refuted_unlocked. Qed.
 Print Assumptions C15_enable_queries_refuted_unlocked.
+
+(** ** where the cache key comes from: the active terminal's WINDOW size
+
+    [model/CachesEnv.v]: the state carries the window of the active terminal (what a resize
+    changes: cells and pixels) and the process environment ([COLUMNS] / [LINES]); the library
+    runs against what its key function — [utils.get_terminal_size()] — makes of them.  With
+    the code's key function ([key_window]: [os.get_terminal_size(_tty_fd)] decides) the whole
+    observable behaviour — every answer and every body counter, after any history of
+    resizes, toggles, getters AND environment changes, from any start-up environment — is
+    that of the cache-free specification for the library operations of the history: every
+    answer is the fresh computation for the CURRENT WINDOW and settings *)
+Theorem C15_env_trace_is_specification :
+  forall e pe t0 ops,
+    kitty_memo e = false -> wf_sizes t0 (strip ops) = true -> px_ok e t0 (strip ops) ->
+    etrace key_window e (einit key_window pe t0) ops = spec_trace e (hinit t0) (strip ops).
+Proof. exact env_trace_is_specification. Qed.
+Print Assumptions C15_env_trace_is_specification.
+
+(** no answer depends on [COLUMNS] / [LINES]: two runs of the same library operations from
+    different environments, changed at different moments, are indistinguishable *)
+Theorem C15_env_independent :
+  forall e pe pe' t0 ops ops',
+    strip ops = strip ops' ->
+    etrace key_window e (einit key_window pe t0) ops = etrace key_window e (einit key_window pe' t0) ops'.
+Proof. exact env_independent. Qed.
+Print Assumptions C15_env_independent.
+
+(** the EXCLUDED key function — [shutil.get_terminal_size(<window size>)]: the environment
+    first, the window as fallback —: with [COLUMNS] / [LINES] equal to the window at
+    start-up, [get_cell_size; resize in cells and pixels; get_cell_size] (a history that
+    satisfies every side condition) answers the second call from the entry made for the
+    first ([(10, 20)], the body did not run) where the specification demands the fresh value
+    [(8, 20)] *)
+Theorem C15_env_first_key_refuted :
+  exists e pe t0 ops,
+    kitty_memo e = false /\ wf_sizes t0 (strip ops) = true /\ px_ok e t0 (strip ops)
+    /\ pe_cols pe = Some (cols t0) /\ pe_lines pe = Some (rows t0)
+    /\ etrace key_env_first e (einit key_env_first pe t0) ops <> spec_trace e (hinit t0) (strip ops)
+    /\ nth 3 (etrace key_env_first e (einit key_env_first pe t0) ops) ([], []) = ([1; 10; 20], [1; 0; 0; 1])%Z
+    /\ nth 3 (spec_trace e (hinit t0) (strip ops)) ([], []) = ([1; 8; 20], [2; 0; 0; 1])%Z.
+Proof. exact env_first_key_refuted. Qed.
+Print Assumptions C15_env_first_key_refuted.
+
+(** ** the cache hand-over at the first [Process.start()]
+
+    [model/CachesHand.v]: two cache objects and two lock objects (the import-time list and
+    RLock; the shared array and its lock), the module globals as bindings evaluated at the
+    moment of use, and the hand-over — acquire the lock, copy, rebind the cache global,
+    rebind the lock global, release the lock ACQUIRED — as steps of a thread, concurrent
+    with toggles ("setting first, then zero the cache under the lock") and [get_cell_size]
+    calls (two lock expressions).  At most one thread is inside the region of one lock
+    object *)
+Theorem C15_handover_mutex :
+  forall f0 warm prog s o t1 t2,
+    reachable xstep (xinit f0 warm prog) s -> x_inside s t1 o -> x_inside s t2 o -> t1 = t2.
+Proof. exact hand_mutex_lemma. Qed.
+Print Assumptions C15_handover_mutex.
+
+(** for any number of threads, any programs of toggles, [get_cell_size()] calls and
+    [Process.start()]s, and any schedule: in every reachable state in which no toggle is
+    between its flag write and its clear, the cache the module global names NOW — list or
+    array — is empty or holds the value for the current flag ([x_answer]: what a
+    [get_cell_size()] running alone returns is the fresh value), and every [get_cell_size]
+    about to write the cache holds such a value *)
+Theorem C15_handover_fresh :
+  forall f0 warm prog s,
+    reachable xstep (xinit f0 warm prog) s ->
+    (forall u, ~ x_pending s u) ->
+    x_answer s = x_flag s
+    /\ (x_cache s (x_curc s) = None \/ x_cache s (x_curc s) = Some (x_flag s))
+    /\ (forall t l1 l2 f, x_pc (x_th s t) = XGWrite l1 l2 f -> f = x_flag s).
+Proof. exact hand_fresh_lemma. Qed.
+Print Assumptions C15_handover_fresh.
+
+Theorem C15_handover_fresh_schedules :
+  forall f0 warm prog sch,
+    let s := run_sched xstep (xinit f0 warm prog) sch in
+    (forall u, ~ x_pending s u) -> x_answer s = x_flag s.
+Proof. exact hand_fresh_schedules. Qed.
+Print Assumptions C15_handover_fresh_schedules.
+
+(** the variant that makes the copy BEFORE it takes the lock admits a schedule (the toggle
+    runs between the copy and the acquisition: nothing makes it wait, it zeroes the OLD
+    list) after which both threads have finished, no toggle is pending, and the array the
+    cache global names holds the value computed under the flag before the toggle *)
+Theorem C15_handover_refuted_copy_before_lock :
+  exists f0 warm prog sch,
+    let s := run_sched (xstep_gen true) (xinit f0 warm prog) sch in
+    x_done s 2 /\ (forall u, ~ x_pending s u)
+    /\ x_flag s = true /\ x_curc s = XNew /\ x_cache s (x_curc s) = Some false /\ x_answer s <> x_flag s.
+Proof. exact hand_refuted_copy_before_lock. Qed.
+Print Assumptions C15_handover_refuted_copy_before_lock.
